@@ -140,7 +140,15 @@ def relabel_mutations(rng, hint):
             "edges_right": right.tolist(), "insert_index": ins.tolist(), "remove_index": rem.tolist()}
 
 
-GENS = {"relabel_mutations": relabel_mutations, "change_time_measure": change_time_measure, "fixed_changepoints": fixed_changepoints, "piecewise_point": piecewise_point, "reallocate_unphased": reallocate_unphased, "constrain_ages": constrain_ages, "damp": damp, "rescale": rescale}
+def gamma_mom(rng, hint):
+    # shapes in [1e-3, 1e6]: far smaller shapes make `shape - 1` (the returned natural parameter) cancel in
+    # floating point, which the real-arithmetic contract does not model
+    mean = float(rng.random() * 10.0 ** rng.integers(-6, 7) + 1e-300)
+    shape = float(10.0 ** (rng.random() * 9 - 3))
+    return {"mean": mean, "variance": mean * mean / shape}
+
+
+GENS = {"gamma_mom": gamma_mom, "relabel_mutations": relabel_mutations, "change_time_measure": change_time_measure, "fixed_changepoints": fixed_changepoints, "piecewise_point": piecewise_point, "reallocate_unphased": reallocate_unphased, "constrain_ages": constrain_ages, "damp": damp, "rescale": rescale}
 
 
 def main():
